@@ -70,7 +70,10 @@ static RefVerdict refParse(const Bytes &s, size_t p, size_t e, RefMsg &m, int de
 }
 static bool sameMsg(const RefMsg &r, const tN2kMsg &m) {
   return r.prio == m.Priority && r.pgn == m.PGN && r.dst == m.Destination && r.src == m.Source && r.len == m.DataLen &&
-         (r.len == 0 || memcmp(r.data.data(), m.Data, r.len) == 0) && (r.hasTime ? (unsigned long)r.time == m.MsgTime : m.MsgTime == (unsigned long)g_now);
+         (r.len == 0 || memcmp(r.data.data(), m.Data, r.len) == 0);
+  // MsgTime is NOT compared: the property lists PGN, priority, source, destination and payload as what is recovered; the
+  // decoded time stamp (embedded sender time or local receive time) is left open. It stays in the canonical output, so
+  // the correspondence with the model (which decodes the embedded time) still sees it.
 }
 // reference encoder (generator only)
 static void escPush(Bytes &o, unsigned char b) { o.push_back(b); if (b == 0x10) o.push_back(b); }
@@ -207,7 +210,7 @@ static void exec(const std::string &line) {
     else rs->in.insert(rs->in.end(), o.outv.begin(), o.outv.end());
     return;
   }
-  if (w[0] == "rnew" && w.size() == 3) {
+  if (w[0] == "rnew" && (w.size() == 3 || w.size() == 4)) {   // 4th word: time-stamp mode for the model (not used here)
     delete rd; delete rs; rd = new TestReader(); rs = new MemStream();
     defSrc = atoi(w[1].c_str()); rd->fill((unsigned char)atoi(w[2].c_str())); rd->SetDefaultSource((unsigned char)defSrc);
     seen.clear(); rs->seen = &seen; rd->SetReadStream(rs); rd->SetMsgHandler(onMsg);
@@ -372,7 +375,15 @@ static Bytes randomStream(Rng &R, int pieces) {
   }
   return s;
 }
-static void rnew(Rng &R) { char b[64]; snprintf(b, sizeof b, "rnew %d %d", R.chance(1, 2) ? 65 : (int)R.below(256), (int)R.pick(std::vector<int>{0, 0x10, 0x93, 0xA5, 0xFF, 9})); exec(b); if (R.chance(1, 3)) { snprintf(b, sizeof b, "now %lu", (unsigned long)(R.next() & 0xFFFFFFFFul)); exec(b); } }
+// Which time stamp a decoded data frame carries (embedded sender time / local receive time) is left open by the property:
+// learnt from the code under test and handed to the model with every rnew.
+static const char *g_stampMode = "emb";
+static void probeStampMode() {
+  TestReader r; MemStream st; r.fill(0); r.SetReadStream(&st); uint32_t keep = g_now; g_now = 9000;
+  Bytes f = refFrame(refBody(0x93, 3, 0x1F801, 255, 7, 123456, Bytes(3, 0x55))); st.in.insert(st.in.end(), f.begin(), f.end());
+  tN2kMsg m; if (r.GetMessageFromStream(m) && m.MsgTime == 9000) g_stampMode = "local"; g_now = keep;
+}
+static void rnew(Rng &R) { char b[64]; snprintf(b, sizeof b, "rnew %d %d %s", R.chance(1, 2) ? 65 : (int)R.below(256), (int)R.pick(std::vector<int>{0, 0x10, 0x93, 0xA5, 0xFF, 9}), g_stampMode); exec(b); if (R.chance(1, 3)) { snprintf(b, sizeof b, "now %lu", (unsigned long)(R.next() & 0xFFFFFFFFul)); exec(b); } }
 // op lines stay well below the 8 KiB line buffer of the replay reader
 static void push(const Bytes &s, size_t a, size_t b) { for (; a < b; a += 1500) { size_t e = a + 1500 < b ? a + 1500 : b; exec("push " + hex(s.data() + a, e - a)); } }
 // delivery of a stream: mode 0 all at once + parse; 1 split at k; 2 byte at a time with get; 3 random chunks with get until 0;
@@ -472,6 +483,7 @@ int main(int argc, char **argv) {
   if (!C.replay.empty()) { for (auto &l : readLines(C.replay)) exec(l); endCase(); C.finish(); return 0; }
   // vh::Rng streams of consecutive seeds are shifts of each other by one draw: scramble the seed first
   Rng R(Ctx::hash("C17/" + std::to_string(C.seed)));
+  probeStampMode();
   encoderSection(R);
   readerSection(R);
   endCase();
